@@ -10,6 +10,7 @@ mod refpng;
 mod report;
 mod rng;
 mod util;
+mod watchdog;
 
 use json::J;
 use report::{Ctx, Report, Tier};
@@ -52,6 +53,7 @@ fn main() {
         }
     }
     util::install_quiet_panic_hook();
+    watchdog::start(&prop, out.as_deref());
     let mut ctx = Ctx {
         rng: rng::Rng::new(seed, &prop),
         tier,
